@@ -705,7 +705,7 @@ pub fn gen_c07(g: &mut Gen) {
         g.emit(format!("tlex {}", hex(text)));
     }
     // 1. every composition schedule for short inputs
-    let n_short = g.budget(260, 6000);
+    let n_short = g.budget(120, 6000);
     for i in 0..n_short {
         let maxlen = match i % 8 { 0 => 12, 1 | 2 => 10, 3 | 4 => 8, _ => 7 };
         let d = one_input(&mut rng, maxlen);
@@ -725,7 +725,7 @@ pub fn gen_c07(g: &mut Gen) {
         g.count("short:all-compositions");
     }
     // 2. longer inputs: 1-/2-cut, all-1-byte, periodic, random schedules; capacities from exact fit upward and too small
-    let n_long = g.budget(900, 20000);
+    let n_long = g.budget(500, 20000);
     for i in 0..n_long {
         let maxlen = match i % 6 { 0 => 24, 1 => 40, 2 => 64, 3 => 100, 4 => 200, _ => 48 };
         let d = one_input(&mut rng, maxlen);
@@ -783,7 +783,7 @@ pub fn gen_c07(g: &mut Gen) {
         g.count("sweep:alignment");
     }
     // 4. the SWAR hooks
-    let n_hook = g.budget(3000, 60000);
+    let n_hook = g.budget(2000, 60000);
     for _ in 0..n_hook {
         let bytes: Vec<u8> = (0..8).map(|_| match rng.below(10) { 0..=3 => b'\t', 4 | 5 => b'\n', 6 => *rng.pick(&[8u8, 0x0b, 0x0c, 0x0d, b' ', 0x89, 0x8a, 0]), 7 => *rng.pick(b"{}\"#\\"), _ => rng.below(256) as u8 }).collect();
         let x = u64::from_le_bytes([bytes[0], bytes[1], bytes[2], bytes[3], bytes[4], bytes[5], bytes[6], bytes[7]]);
